@@ -794,6 +794,10 @@ class Collocator:
         ]
         self._debug(f"{timer} for filtering NaNs")
 
+        # Maybe there is no valid point left after filtering the NaNs?
+        if not time1.size or not time2.size:
+            return self.empty
+
         # We can search for spatial collocations (max_interval=None), temporal
         # collocations (max_distance=None) or both.
         if max_interval is None:
